@@ -117,4 +117,25 @@ PROPS["C01"] = dict(
     thorough=dict(checks=40000, shards=16, timeout=3000),
 )
 
+PROPS["C04"] = dict(
+    pkg="c04",
+    level="exploration",
+    technique="property-based testing (rapid): structural DER mutation of valid signatures, differential against a from-the-RFC verifier (soundness direction); native fuzzing (thorough)",
+    level_text=("Valid signatures (library-made: data/SPC/arbitrary OID, bare SignedData; harness-made in the style of openssl smime/cms: sorted and unsorted attributes, "
+                "attached and detached, with and without certificates and S/MIME capabilities; sbsign/sbvarsign fixtures) are mutated by 30 classes of edits on a TLV tree "
+                "with correct length re-encoding (attribute swap/remove/duplicate, content edit/replace/remove/add, content-type OIDs, certificates, signer identity, "
+                "messageDigest rewrite, signature flip, re-signing with another key, algorithm identifiers, second SignerInfo, outer ContentInfo strip/add, raw and per-leaf byte flips) "
+                "and verified against the signer certificate, an unrelated one and one with the same issuer+serial on another key, through pkcs7.Verify, EFIVariableAuthentication2.Verify "
+                "and the Authenticode wrapper. Oracle: library success implies acceptance by the reference predicate (weakest reading of the statement). "
+                "Thorough: every byte of 1/50 of the blobs changed, plus coverage-guided native fuzzing with the same oracle."),
+    level_note=("Trusts ref/cms + ref/der (no encoding/asn1, no cryptobyte) and crypto/rsa; the reference is cross-checked per run against go.mozilla.org/pkcs7 on honest and tampered samples and must accept the sbsign fixtures. "
+                "Only the 'succeeds only if' direction is judged here; completeness is C05/C16/C03."),
+    rule=("case = (blob derived from a valid signature by 0..2 mutations, verifying certificate, role). Every (blob, certificate) verdict is one evaluation. "
+          "Non-trivial = mutated blob that the library parses and in which a SignerInfo names the verifying certificate (the verdict then depends on the cryptographic and binding checks); distinct by SHA-256 of (blob, certificate)."),
+    assumptions=["ref/cms.Accepts is the weakest predicate the C04 statement allows", "crypto/rsa, crypto/sha256, crypto/x509 certificate parsing"],
+    quick=dict(checks=2500, shards=4, timeout=900),
+    thorough=dict(checks=25000, shards=16, timeout=3000),
+    fuzz=[("FuzzC04", 120)],
+)
+
 NOT_APPLICABLE = _NA()
